@@ -280,7 +280,8 @@ def execute(st):
             continue
         val, err = T[key]
         if not np.all(np.isfinite(val)):
-            # C16's business (known finding for N3LO massive)
+            # the open known finding (N3LO massive NC) is C16's business; any other non-finite entry is recorded and becomes a violation (engine)
+            rel.note_nonfinite(cell, {name: [res]}, [name])
             return {"violations": [], "nontrivial": False, "outcome": "excluded:nonfinite", "transitions": 1, "info": {"n_excluded_nonfinite": 1}}
         if np.any(val != 0):
             nonzero = True
